@@ -290,6 +290,7 @@ impl FrameQueue {
         let mut last_send_time_ms = 0;
         let mut total_ack_size = 0;
         let mut rate_limited = false;
+        let mut any_new_acks = false;
 
         let mut bitfield_size = 0;
         for i in (0 .. 32).rev() {
@@ -337,6 +338,7 @@ impl FrameQueue {
                 // Receiver has received this packet
                 if sent_frame.acked == false {
                     sent_frame.acked = true;
+                    any_new_acks = true;
 
                     #[cfg(uflow_verif)]
                     crate::verif::trace::emit(crate::verif::trace::Event::FrameAcked { frame_id });
@@ -364,8 +366,13 @@ impl FrameQueue {
             }
         }
 
-        // Add to pending feedback data
-        self.feedback_gen.put_ack_data(AckData { last_send_time_ms, total_ack_size, rate_limited });
+        // Add to pending feedback data. A group which acknowledges nothing new (a duplicate or a
+        // replay of an earlier acknowledgement) carries no information: it must neither produce
+        // an RTT sample (its 'latest send time' would be zero, i.e. a sample of the connection's
+        // whole lifetime) nor restart the no-feedback timer.
+        if any_new_acks {
+            self.feedback_gen.put_ack_data(AckData { last_send_time_ms, total_ack_size, rate_limited });
+        }
     }
 
     pub fn can_advance_transfer_window(&mut self, new_base_id: u32) -> bool {
